@@ -142,6 +142,9 @@ class TLSSession(Session):
 
         self._host = host
         self._socket = ssl_sock
+        # a close() before this connect (e.g. after a failed attempt) must not make
+        # the session thread take this connection for one that is being closed
+        self._closing.clear()
         self._connected = True
         # the caller's timeout also bounds the wait for the server's <hello>
         self._post_connect(timeout)
